@@ -263,6 +263,11 @@ def run_check(prop, tier, seed, replay=None):
     broken += [x for x in b if not relevant or x.get("file") in relevant or x["kind"] != "translator"]
     # 2. build driver (needed by correspondences)
     rc, out = lake_build(["gsvdriver"], ctx)
+    for _ in range(int(os.environ.get("GSV_DRIVER_RETRIES", "0"))):   # development aid: another builder may be mid-edit
+        if rc == 0:
+            break
+        time.sleep(30)
+        rc, out = lake_build(["gsvdriver"], ctx)
     driver_ok = rc == 0
     if not driver_ok:
         broken.append({"kind": "driver-build", "detail": tail_err(out)})
